@@ -40,7 +40,12 @@ def build_ir(cpp, ll, defs=(), std='c++14', rtti=False, flavour='single', extra=
           ['-I' + include_dir(flavour), '-I' + os.path.join(VERIF, 'harness')] + ['-D' + d for d in defs] + list(extra) + \
           ['-S', '-emit-llvm', cpp, '-o', ll]
     rc, out, dt = sh(cmd, timeout=300)
-    if rc != 0: raise Broken('clang failed on %s:\n%s' % (cpp, out[-3000:]))
+    if rc != 0:
+        errs = [l for l in out.splitlines() if re.search(r': (fatal )?error: ', l)]
+        e = Broken('clang failed on %s:\nfirst error: %s\n%s' % (cpp, errs[0][:600] if errs else '?', out[-2000:]))
+        e.first_error = errs[0] if errs else ''; e.cmd = cmd; e.cpp = cpp
+        e.kw = dict(defs=list(defs), std=std, rtti=rtti, flavour=flavour, extra=list(extra))
+        raise e
     return dt
 
 def to_c(ll, c, prefix='', header=None):
